@@ -51,3 +51,16 @@ def c15_sdmm_vacuous_stop(case, result):
             and (result.get("obs") or {}).get("updates") == 1:
         return "C15/sdmm-unconstrained-vacuous-stop"
     return None
+
+
+@classifier("C20")
+def c20_spokes_long_blip(case, result):
+    """Some in-plane blip returned by trap_grad during the spokes_grad call has more samples
+    than the slice-select sub-pulse: it is spliced over the previous spoke's samples."""
+    if case.get("gen") != "spokes" or not str(result.get("mech", "")).startswith("spokes-"):
+        return None
+    w = result.get("witness") or {}
+    blips, nsub = w.get("blip_samples"), w.get("subpulse_samples")
+    if blips and nsub and max(blips) > nsub:
+        return "C20/spokes-blip-longer-than-subpulse"
+    return None
